@@ -102,3 +102,128 @@ MANIFEST_TEXT["C04"] = dict(
     note=NOTE, technique="Lean 4 proof (representation invariant through apply/merge) + differential correspondence check", design_ref="DESIGN.md §7 C04")
 
 NOT_APPLICABLE = {f"C{i:02d}": "check under construction in this session (model + theorems not yet committed); will be claimed, not switched to another technique" for i in range(1, 21)}
+
+
+# --------------------------------------------------------------------------------------------
+# C06 (MVReg) and the generic properties (instances of the RepSys corollaries)
+# --------------------------------------------------------------------------------------------
+PROPS["C06"] = dict(
+    lean_targets=["CrdtModel.Props.C06", "CrdtModel.Witness.MVRegEqPanic", "CrdtModel.Witness.MVRegMalformed"],
+    audit="CrdtModel/Audit/C06.lean",
+    required_theorems=[
+        "Crdt.C06.vals_eq_maximal", "Crdt.C06.read_eq_maximal", "Crdt.C06.read_add_clock", "Crdt.C06.write_supersedes_read",
+        "Crdt.C06.concurrent_writes_kept", "Crdt.C06.superseded_never_reappears", "Crdt.C06.converge", "Crdt.C06.converge_eq",
+        "Crdt.C06.eq_never_panics", "Crdt.C06.merge_comm", "Crdt.C06.merge_assoc", "Crdt.C06.merge_idem", "Crdt.C06.merge_is_union",
+        "Crdt.C06.dup_noop", "Crdt.C06.stale_noop", "Crdt.C06.genLog_wf", "Crdt.C06.write_clock_fresh",
+        "Crdt.Witness.mvreg_eq_panics_after_reset_remove",
+    ],
+    profiles=[
+        dict(name="mvreg_hist", quick=1500, thorough=30000),
+        dict(name="mvreg_raw", quick=1000, thorough=20000),
+    ],
+    explanation="MVReg: representation theorem under NO delivery-order assumption (any order, duplicates, merges of live/stale states): the Vec holds exactly the "
+                "causally-maximal known puts, each once; read values / read clock / convergence / merge laws / == follow, all up to the arrival order of the Vec. "
+                "Generation lemma: API writes (each actor at one replica) give a well-formed log (distinct clocks). Correspondence: random histories with the Lean "
+                "specification (maximal puts computed from the knowledge list) printed next to every observation; raw hand-made puts (future/equal/empty/zero clocks), "
+                "reset_remove and the == panic edge for model correspondence.",
+    statement_coverage="full statement proved for ops and merges; reset_remove is outside the op/merge system (known edge: it can duplicate an entry, after which == panics - witness)",
+    assumptions=["actor type is a lawful total order", "u64 counters do not overflow",
+                 "log well-formedness MVWF: no stored zero counter, one value per clock (proved for API-generated histories where each actor writes at one replica: genLog_wf)"],
+)
+MANIFEST_TEXT["C06"] = dict(
+    text="Unbounded Lean theorems: for every derivable replica state (ANY delivery order, duplication, merge pattern, any number of replicas) of a well-formed log of puts, "
+         "MVReg's Vec holds exactly the causally-maximal known puts, each once; read() returns their values (as a multiset), its clock is the join of all known clocks; "
+         "a write derived from a read supersedes everything that read returned, concurrent writes are both kept (even with equal values), superseded writes never reappear; "
+         "convergence, merge commutative/associative/idempotent, merge = union, duplicates absorbed, all up to the arrival order of the Vec, which is what the hand-written == decides "
+         "(and == never panics on derivable states). Generation lemma: API writes with each actor at one replica give a well-formed log. Known edge: reset_remove can duplicate an entry, then == panics. "
+         "Model tied to the code by differential histories with spec values compared against the implementation, plus raw hand-made puts.",
+    note=NOTE, technique="Lean 4 proof (representation invariant by induction over derivations, equality up to permutation) + differential correspondence check", design_ref="DESIGN.md §7 C06")
+
+LATTICE_PROFILES = [dict(name="lattice_hist", quick=1200, thorough=20000), dict(name="vclock_hist", quick=300, thorough=5000)]
+MVREG_PROFILES = [dict(name="mvreg_hist", quick=1000, thorough=20000)]
+READ_FIELDS = ["read", "rc", "rctx", "c0", "c1", "c2", "c3", "iter", "vals", "state", "p", "n", "val", "marker", "clock"]
+
+
+def generic(pid, targets, required, profiles, oracle, explanation, coverage):
+    PROPS[pid] = dict(lean_targets=targets, audit=f"CrdtModel/Audit/{pid}.lean", required_theorems=required, profiles=profiles,
+                      oracle_fields=oracle, explanation=explanation, statement_coverage=coverage,
+                      assumptions=["each actor edits at one replica (LogWF / unique markers / distinct clocks per put)", "u64 counters do not overflow"])
+
+
+generic("C01", ["CrdtModel.Props.C01", "CrdtModel.Props.C06"],
+        ["Crdt.C01.same_ops_same_state", "Crdt.C01.orswot", "Crdt.C01.orswot_reads", "Crdt.C01.causal_implies_ok", "Crdt.C01.gcounter", "Crdt.C01.pncounter",
+         "Crdt.C01.gset", "Crdt.C01.maxreg", "Crdt.C01.minreg", "Crdt.C01.lwwreg", "Crdt.C01.vclock", "Crdt.C06.converge"],
+        [dict(name="orswot_causal", quick=1200, thorough=25000), dict(name="orswot_fifo_ops", quick=600, thorough=10000)] + LATTICE_PROFILES + MVREG_PROFILES,
+        ["conv"] + READ_FIELDS,
+        "Convergence = functionality of the representation relation: Reach U s K, Reach U s' K', same set => s = s' (generic theorem RepSys.converge, instantiated for every type "
+        "that has a representation theorem). Oracle: at the end of every generated causal/FIFO history all pairs of replicas and snapshots with equal delivered sets are compared "
+        "(observation incl. every read context and the private state); reads are also compared with the Lean spec of the knowledge set.",
+        "proved for VClock, GCounter, PNCounter, GSet, LWWReg (unique markers), MaxReg, MinReg, MVReg (up to Vec order = its own ==), Orswot; List/GList/MerkleReg/Map pending in this session")
+
+generic("C02", ["CrdtModel.Props.C02", "CrdtModel.Props.C06"],
+        ["Crdt.C02.comm", "Crdt.C02.assoc", "Crdt.C02.idem", "Crdt.C02.orswot_comm", "Crdt.C02.orswot_assoc", "Crdt.C02.orswot_idem", "Crdt.C02.vclock_assoc",
+         "Crdt.C02.gset_assoc", "Crdt.C02.lwwreg_laws", "Crdt.C06.merge_comm", "Crdt.C06.merge_assoc", "Crdt.C06.merge_idem"],
+        [dict(name="orswot_fifo", quick=1500, thorough=30000), dict(name="orswot_causal", quick=500, thorough=10000)] + LATTICE_PROFILES + MVREG_PROFILES,
+        ["comm", "assoc", "idem"],
+        "merge(a,b)=merge(b,a), associativity, idempotence for ALL triples of derivable states (incl. states with pending removes and results of merges): corollaries of rep_merge + "
+        "functionality + ACI of list-append-as-set. Oracle: ML command evaluates the three laws on the implementation for random triples of replica states inside histories.",
+        "proved for the same types as C01; Map pending")
+
+generic("C03", ["CrdtModel.Props.C03", "CrdtModel.Props.C06"],
+        ["Crdt.C03.knowledge_determines_state", "Crdt.C03.merge_union", "Crdt.C03.merge_rep", "Crdt.C03.orswot", "Crdt.C03.gcounter", "Crdt.C03.lwwreg", "Crdt.C06.merge_is_union"],
+        [dict(name="orswot_fifo", quick=1500, thorough=30000), dict(name="orswot_causal", quick=500, thorough=10000)] + LATTICE_PROFILES + MVREG_PROFILES,
+        ["mu", "conv"] + READ_FIELDS,
+        "merge_is_union: merging two derivable states equals ANY state derivable with the union of their knowledge (ops and merges freely mixed in Reach). Oracle: MU command compares "
+        "merge(r, r2) with a copy of r that is delivered the ops r2 knows, on the implementation; spec reads after every merge.",
+        "proved for the same types as C01; Map pending")
+
+generic("C07", ["CrdtModel.Props.C07", "CrdtModel.Props.C06"],
+        ["Crdt.C07.add_clock_all_entry_points", "Crdt.C07.add_clock_covers", "Crdt.C07.element_rm_clock", "Crdt.C07.iter_rm_clock", "Crdt.C07.rm_clock_empty_iff_absent",
+         "Crdt.C07.rm_clock_le_add_clock", "Crdt.C07.derived_dot_fresh", "Crdt.C07.rm_ctx_covers_only_seen", "Crdt.C06.read_add_clock", "Crdt.C06.write_clock_fresh"],
+        [dict(name="orswot_fifo", quick=1500, thorough=30000), dict(name="orswot_causal", quick=500, thorough=10000)] + MVREG_PROFILES,
+        ["fresh", "rc", "rctx", "c0", "c1", "c2", "c3", "iter"],
+        "Every read entry point of Orswot (read, read_ctx, contains, iter) and MVReg (read, read_ctx): add context = replica clock = per-actor max of applied adds; element remove context = "
+        "exactly the surviving witnesses, empty iff absent, <= add context; derived dot = (i, clk+1), carried by no op of the log; a remove context covers only adds the reader knows. "
+        "Oracle: contexts compared with the Lean spec; freshness of every generated dot checked against all earlier ops of the history.",
+        "proved for top-level Orswot and MVReg; Map read entry points (get, keys, values, len, is_empty) pending in this session")
+
+generic("C08", ["CrdtModel.Props.C08", "CrdtModel.Props.C06"],
+        ["Crdt.C08.fifo_equals_causal", "Crdt.C08.deferred_iff", "Crdt.C08.deferred_members", "Crdt.C08.overtaking_remove_effective", "Crdt.C08.deferred_survives_merge",
+         "Crdt.C08.order_free_gcounter", "Crdt.C06.converge"],
+        [dict(name="orswot_fifo", quick=1500, thorough=30000), dict(name="orswot_fifo_ops", quick=700, thorough=10000)] + LATTICE_PROFILES + MVREG_PROFILES,
+        ["conv", "deferred"] + READ_FIELDS,
+        "The Orswot representation theorem is proved under 'each actor's ADDS in issue order' only; removes may overtake anything. The deferred table is characterised exactly and the "
+        "characterisation is preserved by merge. Order-free types have Ok := True. Oracle: per-actor-FIFO (non-causal) histories with overtaking removes and merges of replicas holding pending "
+        "removes; state compared with the spec of the knowledge set (= what causal delivery gives).",
+        "proved for Orswot, MVReg, counters, GSet, registers; Map (key level) and the 'List needs causal' witness pending")
+
+generic("C09", ["CrdtModel.Props.C09", "CrdtModel.Props.C06"],
+        ["Crdt.C09.duplicate_absorbed", "Crdt.C09.stale_state_absorbed", "Crdt.C09.orswot_duplicate", "Crdt.C09.orswot_stale", "Crdt.C09.no_resurrection",
+         "Crdt.C09.gcounter_duplicate", "Crdt.C06.dup_noop", "Crdt.C06.stale_noop"],
+        [dict(name="orswot_fifo", quick=1500, thorough=30000), dict(name="orswot_causal", quick=500, thorough=10000)] + LATTICE_PROFILES + MVREG_PROFILES,
+        ["absorb", "read", "conv"],
+        "dup_noop / stale_noop: generic corollaries (op in K => apply s op = s; knowledge(K') subset K => merge s s' = s). no_resurrection from the Orswot spec. Oracle: AB command "
+        "re-applies every known op and merges every stale snapshot / lagging peer into a copy and requires an unchanged observation.",
+        "proved for the same types as C01; Map pending")
+
+generic("C20", ["CrdtModel.Props.C20", "CrdtModel.Props.C06"],
+        ["Crdt.C20.orswot_eq", "Crdt.C20.no_pending_residue", "Crdt.C20.no_empty_entry", "Crdt.C20.removed_leaves_no_entry", "Crdt.C20.state_is_function_of_knowledge",
+         "Crdt.C06.converge_eq", "Crdt.C06.eq_never_panics"],
+        [dict(name="orswot_fifo", quick=1500, thorough=30000), dict(name="orswot_causal", quick=500, thorough=10000)] + LATTICE_PROFILES + MVREG_PROFILES,
+        ["conv", "clock", "entries", "deferred", "vals", "state", "p", "n"],
+        "Model states are canonical so Lean = is Rust ==; converge gives s = s'. no_pending_residue / no_empty_entry / removed_leaves_no_entry: the state is exactly (clock, surviving "
+        "witnesses, pending removes). Oracle: E command requires == (not only equal reads) for equal knowledge; private state compared with the spec state.",
+        "proved for Orswot, MVReg, lattice types; Map/List/MerkleReg pending")
+
+
+def mt(pid, text):
+    MANIFEST_TEXT[pid] = dict(text=text, note=NOTE, technique="Lean 4 proof (representation invariant + generic corollaries) + differential correspondence check", design_ref=f"DESIGN.md §7 {pid}")
+
+
+mt("C01", "Lean theorem: any two derivable replica/snapshot states with the same delivered set are EQUAL (all reads, all contexts), for any number of replicas and any schedule allowed by a discipline weaker than causal. Generic over a representation system; instantiated per type.")
+mt("C02", "Lean theorems: merge commutative/associative/idempotent on all derivable states (incl. pending removes, merges of merges); for pure lattice types on all states.")
+mt("C03", "Lean theorem merge_is_union: merge(state(K1), state(K2)) = state(K1 u K2) for knowledge realised by any mix of deliveries and merges.")
+mt("C07", "Lean theorems on every Orswot/MVReg read entry point: contexts are exactly the spec clocks; derived dots are fresh w.r.t. the whole log; remove contexts cover only seen adds.")
+mt("C08", "Lean: the Orswot/MVReg/lattice representation theorems assume only per-actor order on adds (nothing for order-free types); pending removes characterised exactly and preserved by merge.")
+mt("C09", "Lean theorems dup_noop, stale_noop (generic) and no_resurrection (Orswot).")
+mt("C20", "Lean: equal knowledge => equal state (= Rust ==); no pending remove / empty entry / leftover witness once removes are caught up.")
